@@ -90,6 +90,17 @@ def ctrlpoints(draw, n, dim=None, values=None):
     return pts
 
 
+@st.composite
+def point_dim(draw, sizes, base=(2, 3)):
+    """Dimension of vector control points.  Mostly 2 or 3; one time in three a dimension that coincides with one of
+    the array sizes in play (number of control points of an operand or of the result): code that tells axes apart
+    by their length is then ambiguous."""
+    cand = sorted({int(x) for x in sizes if 1 <= int(x) <= 6})
+    if cand and draw(st.integers(0, 2)) == 0:
+        return draw(st.sampled_from(cand))
+    return draw(st.sampled_from(list(base)))
+
+
 def pos_weights(n):
     w = st.builds(lambda a, d: F(a, d), st.integers(1, 9), st.sampled_from([1, 1, 2, 3, 5]))
     generic = st.lists(w, min_size=n, max_size=n)
